@@ -198,7 +198,7 @@ Lemma okev_unaligned off w : off + w <= len -> okev (Load RHay off w false).
 Proof. intros H. cbn. split; [exact H|discriminate]. Qed.
 
 Lemma okev_aligned off : off + B <= len -> (a + off) mod B = 0 -> okev (Load RHay off B alf).
-Proof. intros H1 H2. cbn. split; [exact H1|]. intros _. exact H2. Qed.
+Proof. intros H1 H2. cbn. split; [exact H1|]. intros _ _. exact H2. Qed.
 
 Lemma mod_add_mul x k : (a + x) mod B = 0 -> (a + (x + k * B)) mod B = 0.
 Proof.
